@@ -43,12 +43,22 @@ TRUSTED = ['closed-form proximal/gradient maps (PSpec) in tools/harness/solverli
            'binary64, compared with relative tolerance 1e-9']
 ASSUMPTIONS = ['floating-point rounding is outside the model (exact reals in the theorems); '
                'monotone quantities are checked on the real code with relative slack 1e-10',
-               'theorems are for linear operators given with an adjoint and a bound c >= ||A||; '
-               'proximals enter as resolvents of arbitrary set-valued operators (C07 ties the '
-               'real proximals to that characterisation)',
-               'convergence_not_proved: the decay of the KKT residual is measured, not proved; '
-               'cg_exact_after_dim and the Douglas-Rachford fixed-point characterisation are '
-               'tested only']
+               'theorems are for linear operators given with an adjoint and a bound c >= ||A||; the '
+               '*_fixed_point* theorems are resolvent algebra valid for ARBITRARY maps prox and '
+               'relations related by IsProx; that the relation is the sub-differential of the '
+               'functional whose proximal the code calls is C07 (isProx_soft_threshold shows it for '
+               'the L1 proximal), and "solution => KKT" (constraint qualification) is assumed',
+               'armijo_descent / steepest_descent_mono are by construction of the loop (exit test '
+               'read back; no projection; a raising line search leaves x unchanged in the model)',
+               'default step sizes: the theorems are relative to the norm ESTIMATE; admissibility '
+               'needs estimate >= sqrt(0.9)|L| (pdhg) resp. >= |A|/sqrt(2) (landweber), which the '
+               'power method (an under-estimate) usually but not provably satisfies: checked on the '
+               'real code against numpy.linalg.svd',
+               'convergence_not_proved: decay of the KKT residual, sub-gradient inclusion with the '
+               'dual certificate of pdhg, start-at-solution drift and objective agreement are TESTS on '
+               'generated problems (strongly convex quadratic f only; L from the operator zoo incl. '
+               'gradient / weighted; g incl. indicators, KL, Huber, group-L1); cg_exact_after_dim is '
+               'tested only; l != None is modelled and tied but has no Douglas-Rachford theorem']
 KNOWN_EXPLAINS_DISAGREEMENT = False
 
 Case = c11.Case
@@ -124,10 +134,22 @@ def family_cg(ctx, r, exact, n, opaque=False):
     ill = r.random() < 0.3
     B = rand_matrix(r, d, d, ill)
     A = B.T.dot(B) + (np.eye(d) * (2.0 ** -8 if ill else 1.0))
-    op = odl.MatrixOperator(A)
     b = sl.dy_vec(r, d, 16, 8)
     x0 = sl.dy_vec(r, d, 16, 8)
     n = r.randint(1, d + 2)
+    early = r.random() < 0.25
+    if early:
+        # A = c*I, dyadic data: CG is exact after ONE step also in doubles, so the CODE takes
+        # `if inner_p_d == 0.0: return` (or `sqnorm_r_old == 0` when it starts at the solution)
+        ill = False
+        A = r.choice([1.0, 2.0, 0.5, 4.0]) * np.eye(d)
+        # the initial residual has ONE non-zero entry, so that `r.norm() ** 2` (sqrt, then
+        # square) is exact and the residual after the first step is exactly 0 in doubles
+        x0 = np.linalg.solve(A, b)
+        if r.random() < 0.7:
+            x0[r.randint(0, d - 1)] += r.choice([1.0, -0.5, 2.25])
+        n = r.randint(2, 4)
+    op = odl.MatrixOperator(A)
     p = dict(solver='cg', opkind='spd{}{}'.format(d, 'ill' if ill else ''), x0=x0, fk='-', gk='-',
              cseed=r.cseed)
     x = unflat(op.domain, x0)
@@ -153,11 +175,12 @@ def family_cg(ctx, r, exact, n, opaque=False):
         ctx.case(('oracle', 'cg', p['opkind'], n))
         ctx.hit('oracle/cg-ill-conditioned')
         return []
-    ctx.hit('model/cg')
-    sig = ('model', 'cg', p['opkind'], n)
+    ctx.hit('model/cg' + ('/early-return' if early else ''))
+    sig = ('model', 'cg', p['opkind'], n, early)
     line = 'cg A={} b={} x0={} n={}'.format(fmat_np(A), fl(b), fl(x0), n)
-    return [Case(desc_of(p, n=n), sig if st == 'ok' and c11.nontrivial(log, x0) else None, line,
-                 st, log, {'_prefix': True})]
+    # early-return cases: same number of callbacks on both sides, exact comparison
+    return [Case(desc_of(p, n=n), sig if st == 'ok' and (early or c11.nontrivial(log, x0)) else None,
+                 line, st, log, {} if early else {'_prefix': True})]
 
 
 def family_cgn(ctx, r, exact, n, opaque=False):
@@ -170,13 +193,17 @@ def family_cgn(ctx, r, exact, n, opaque=False):
     b = sl.dy_vec(r, m, 16, 8)
     x0 = sl.dy_vec(r, d, 16, 8)
     n = r.randint(1, min(d, m) + 2)
+    nl = (not ill) and r.random() < 0.25
+    if nl:      # non-linear x -> A x^2: the code differentiates at x initially and at p in the loop
+        op = op * odl.PowerOperator(op.domain, 2)
+        b, x0, n = sl.dy_vec(r, m, 8, 8), sl.dy_vec(r, d, 8, 8), min(n, 3)
     p = dict(solver='cgn', opkind='{}x{}{}'.format(m, d, 'ill' if ill else ''), x0=x0, fk='-',
              gk='-', cseed=r.cseed)
     x = unflat(op.domain, x0)
     rec = Recorder()
     st, _ = guarded(conjugate_gradient_normal, op, x, unflat(op.range, b), n, callback=rec)
     log = rec.iterates
-    if st == 'ok':
+    if st == 'ok' and not nl:
         res = [float(np.linalg.norm(A.dot(v) - b)) for v in [x0] + log]
         k = mono_violation(res)
         if k is not None:
@@ -189,9 +216,10 @@ def family_cgn(ctx, r, exact, n, opaque=False):
         ctx.case(('oracle', 'cgn', p['opkind'], n))
         ctx.hit('oracle/cgn-ill-conditioned')
         return []
-    ctx.hit('model/cgn')
-    sig = ('model', 'cgn', p['opkind'], n)
-    line = 'cgn A={} At={} b={} x0={} n={}'.format(fmat_np(A), fmat_np(A.T), fl(b), fl(x0), n)
+    ctx.hit('model/cgn' + ('/nonlinear-op' if nl else ''))
+    sig = ('model', 'cgn', p['opkind'], n, nl)
+    line = 'cgn A={} At={} b={} x0={} n={}{}'.format(fmat_np(A), fmat_np(A.T), fl(b), fl(x0), n,
+                                                     ' sq=1' if nl else '')
     return [Case(desc_of(p, n=n), sig if st == 'ok' and c11.nontrivial(log, x0) else None, line,
                  st, log, {'_prefix': True})]
 
@@ -405,11 +433,15 @@ def family_power(ctx, r, exact, n, opaque=False):
     import odl
     from odl.operator.oputils import power_method_opnorm
     self_adj = r.random() < 0.25
+    nil = False
     if self_adj:
         d = r.randint(1, 3)
         cval = r.choice([-2.0, 0.5, 3.0, 1.0])
         op = odl.ScalingOperator(odl.rn(d), cval) if cval != 1.0 else odl.IdentityOperator(odl.rn(d))
         kind = 'selfadjoint'
+    elif r.random() < 0.15:
+        kind, op = 'matrix', odl.MatrixOperator(np.array([[0.0, r.choice([1.0, 2.0])], [0.0, 0.0]]))
+        nil = True      # nilpotent: A^T A e_1 = 0 -> `x_norm == 0` raise inside the loop
     else:
         kind, op = sl.operator_zoo(r, r.choice(['matrix', 'matrix', 'pderiv', 'gradient', 'wmatrix']))
     M = np.array([[float(v) for v in row] for row in sl.exact_matrix(op)])
@@ -417,6 +449,8 @@ def family_power(ctx, r, exact, n, opaque=False):
     x0 = sl.dy_vec(r, size_of(op.domain), 16, 8)
     if not np.any(x0):
         x0[0] = 1.0
+    if nil:
+        x0 = np.array([r.choice([1.0, -0.5]), 0.0])
     ncalls = r.randint(1, 12)
     maxiter = ncalls if self_adj else 2 * ncalls
     p = dict(solver='power', opkind=kind, x0=x0, fk='-', gk='-', cseed=r.cseed)
@@ -436,6 +470,10 @@ def family_power(ctx, r, exact, n, opaque=False):
                      'estimate {} > norm {}'.format(float(est2), true), p, maxiter=maxiter,
                      M=M.tolist())
     ctx.hit('model/power/' + ('self' if self_adj else 'normal'))
+    if st != 'ok':
+        ctx.hit('model/power/raise')
+        if not nil:
+            viol(ctx, 'power_method_opnorm raises opkind=' + kind, st, p, maxiter=maxiter, M=M.tolist())
     # x.norm() is the weighted norm: fold the constant cell weight into the wire data
     if kind in ('matrix', 'selfadjoint'):
         if self_adj:
@@ -1183,17 +1221,30 @@ def family_ref_osmlem(ctx, r, exact, n, opaque=False):
     ops = [odl.MatrixOperator(M) for M in mats]
     data = [np.abs(sl.dy_vec(r, M.shape[0], 16, 4)) + 0.25 for M in mats]
     x0 = np.abs(sl.dy_vec(r, d, 16, 8)) + 0.125
-    given = r.random() < 0.5
-    sens = [np.abs(sl.dy_vec(r, d, 8, 4)) + 0.25 * (i + 1) for i in range(m)] if given else \
-        [M.T.dot(np.ones(M.shape[0])) for M in mats]
+    form = r.choice(['default', 'default', 'list', 'list', 'element', 'float'])
+    given = form != 'default'
+    if form == 'list':
+        sens = [np.abs(sl.dy_vec(r, d, 8, 4)) + 0.25 * (i + 1) for i in range(m)]
+    elif form == 'element':     # one domain element for all subsets (docstring)
+        sens = [np.abs(sl.dy_vec(r, d, 8, 4)) + 0.25] * m
+    elif form == 'float':
+        sens = [np.full(d, r.choice([0.5, 2.0, 1.25]))] * m
+    else:
+        sens = [M.T.dot(np.ones(M.shape[0])) for M in mats]
     n = r.randint(1, 5)
     use_mlem = (m == 1 and r.random() < 0.5)
     p = dict(solver='ref_osmlem', opkind='x'.join(str(M.shape[0]) for M in mats), x0=x0,
-             fk='sens' if given else 'default', gk='mlem' if use_mlem else 'osmlem', cseed=r.cseed,
-             m=m)
+             fk=form, gk='mlem' if use_mlem else 'osmlem', cseed=r.cseed, m=m)
     x = unflat(ops[0].domain, x0)
     rec = Recorder()
-    kw = {'sensitivities': [unflat(ops[0].domain, s) for s in sens]} if given else {}
+    kw = {}
+    if form == 'list':
+        kw = {'sensitivities': [unflat(ops[0].domain, s_) for s_ in sens]}
+    elif form == 'element':
+        kw = {'sensitivities': unflat(ops[0].domain, sens[0])}
+    elif form == 'float':
+        kw = {'sensitivities': float(sens[0][0])}
+    ctx.hit('reference/osmlem/sensitivities=' + form)
     if use_mlem:
         st, _ = guarded(mlem, ops[0], x, unflat(ops[0].range, data[0]), n, callback=rec, **kw)
     else:
@@ -1447,6 +1498,20 @@ FAMILIES = {
     'optimality_multi': family_optimality_multi,
     'ref_pdhg': family_ref_pdhg, 'ref_fista': family_ref_fista, 'fista_rate': family_fista_rate,
 }
+EXPECTED_BRANCHES = [
+    'model/cg', 'model/cg/early-return', 'model/cgn', 'model/cgn/nonlinear-op',
+    'model/steepestbt/ok', 'model/steepestbt/raised', 'model/power/normal', 'model/power/self',
+    'model/power/raise', 'model/dr/l=given', 'model/dr/l=None', 'model/fbpd/l=given',
+    'model/fbpd/l=None', 'model/dr/m=0', 'model/dr/m=1', 'model/dr/m=2', 'model/dr/m=3',
+    'model/fbpd/m=0', 'model/fbpd/m=1', 'model/fbpd/m=2', 'model/fbpd/m=3', 'model/apg',
+    'model/stepsize/pdhg/--', 'model/stepsize/pdhg/t-', 'model/stepsize/pdhg/-s',
+    'model/stepsize/pdhg/ts', 'model/stepsize/dr/--', 'model/stepsize/dr/t-', 'model/stepsize/dr/-s',
+    'model/stepsize/dr/ts', 'model/stepsize/landweber-default',
+    'model/linesearch/descent', 'model/linesearch/ascent', 'model/linesearch/zero/raise',
+    'model/c11-tie/kaczmarz(random order)', 'model/c11-tie/landweber', 'model/c11-tie/pdhg',
+    'reference/osmlem/sensitivities=element', 'reference/osmlem/sensitivities=float',
+    'test/start at the solution', 'oracle/stepsize admissibility',
+]
 SLOW = {'optimality': 0.2, 'fixed_point': 0.3, 'optimality_multi': 0.15, 'proxgrad_descent': 0.15, 'f12': 0.05, 'fista_rate': 0.05}
 C11_TIE = ('landweber', 'kaczmarz', 'pdhg', 'admm', 'proxgrad')
 
